@@ -109,6 +109,7 @@ Definition p_ev (tag : N) : parser ev :=
           | 4 => let* m := p_msg in pret (EFut id (RRead m))
           | _ => pfail
           end
+  | 18 => let* d := pN in pret (ETick d)
   | _ => pfail
   end.
 
@@ -153,8 +154,10 @@ Definition p_case : parser case :=
   let* known := plist pN in
   let* cap := pN in
   let* mode := pN in
-  let g := mkG k V.gen.Consts.PARALLELISM_FACTOR local in
-  if mode =? 0 then
+  (* mode: bit 0 = composed case, bit 1 = the peer timeout is zero (every pending peer of an earlier
+     next_action call is stale) instead of unreachable *)
+  let g := mkG k V.gen.Consts.PARALLELISM_FACTOR local (if N.testbit mode 1 then 0 else BIG) in
+  if negb (N.testbit mode 0) then
     let* evs := plist p_event in pret (mkCase g m known cap [] evs [])
   else
     let* keys := plist (let* p := pN in let* ky := p_key in pret (p, ky)) in
@@ -237,7 +240,8 @@ Fixpoint run_groups (g : gcfg) (s : st) (open : bool) (ok : bool) (outs : list o
   | [] => if open then flush s ok outs else []
   | e :: t =>
       let '(s1, o, f) := step g s e in
-      if is_serve e then run_groups g s1 open (ok && f) (outs ++ o) t
+      if is_tick e then run_groups g s1 open ok outs t
+      else if is_serve e then run_groups g s1 open (ok && f) (outs ++ o) t
       else (if open then flush s ok outs else []) ++ run_groups g s1 true f o t
   end.
 
@@ -248,6 +252,7 @@ Definition flush_b (b : bst) (ok : bool) (rcv : list out) : list N :=
   (if parked b then [] else dump (b_st b)).
 
 Definition bev_serve (e : bev) : bool := match e with BEv e' => is_serve e' | BRecv => false end.
+Definition bev_tick (e : bev) : bool := match e with BEv e' => is_tick e' | BRecv => false end.
 
 Fixpoint run_groups_b (g : gcfg) (cap : nat) (b : bst) (open : bool) (ok : bool) (rcv : list out)
          (es : list bev) : list N :=
@@ -255,7 +260,8 @@ Fixpoint run_groups_b (g : gcfg) (cap : nat) (b : bst) (open : bool) (ok : bool)
   | [] => if open then flush_b b ok rcv else []
   | e :: t =>
       let '(b1, r, f) := bstep g cap b e in
-      if bev_serve e then run_groups_b g cap b1 open (ok && f) (rcv ++ r) t
+      if bev_tick e then run_groups_b g cap b1 open ok rcv t
+      else if bev_serve e then run_groups_b g cap b1 open (ok && f) (rcv ++ r) t
       else (if open then flush_b b ok rcv else []) ++ run_groups_b g cap b1 true f r t
   end.
 
@@ -287,6 +293,7 @@ Definition flush_c (wc : wcfg) (w : world) (ok : bool) (outs : list out) : list 
   b2n (ok && quiescent (w_st w)) :: enc_list enc_out outs ++ dump_w wc w.
 
 Definition uev_serve (u : uev) : bool := match u with UEv e => is_serve e | _ => false end.
+Definition uev_tick (u : uev) : bool := match u with UEv e => is_tick e | _ => false end.
 
 Fixpoint run_groups_c (wc : wcfg) (w : world) (open : bool) (ok : bool) (outs : list out)
          (us : list uev) : list N :=
@@ -294,7 +301,8 @@ Fixpoint run_groups_c (wc : wcfg) (w : world) (open : bool) (ok : bool) (outs : 
   | [] => if open then flush_c wc w ok outs else []
   | u :: t =>
       let '(w1, o, f) := cstep wc w u in
-      if uev_serve u then run_groups_c wc w1 open (ok && f) (outs ++ o) t
+      if uev_tick u then run_groups_c wc w1 open ok outs t
+      else if uev_serve u then run_groups_c wc w1 open (ok && f) (outs ++ o) t
       else (if open then flush_c wc w ok outs else []) ++ run_groups_c wc w1 true f o t
   end.
 
@@ -395,7 +403,7 @@ Definition decode_trace (t : list N) : option (list group) :=
 
 (* ---- the oracle: the property text judged on a trace ---- *)
 (* the select! events of the case, in order (one per group) *)
-Definition sel_events (es : list ev) : list ev := filter (fun e => negb (is_serve e)) es.
+Definition sel_events (es : list ev) : list ev := filter (fun e => negb (is_serve e || is_tick e)) es.
 
 Definition started_ids (es : list ev) : list N :=
   flat_map (fun e => match started_by e with Some q => [q] | None => [] end) es.
